@@ -578,22 +578,44 @@ def check_list_args_copied(prog, rep):
         m = prog.module(rel)
         f = m.func(qual)
         pm = set(params(f)) - {'self', 'cls'}
-        cfg = CFG(f)
+        from ..flow import reaching_defs
+        cfg, rd = reaching_defs(f, by_line=True)
+        by_key = {}
+        for st in stmts_of(f):
+            by_key[(key_text(st), st.lineno)] = st
+
+        def is_fresh_value(val):
+            return bool(pmatch('list($$x)', val) or pmatch('$$x[:]', val) or
+                        pmatch('$$x.copy()', val) or isinstance(val, (ast.List, ast.ListComp)) or
+                        (isinstance(val, ast.BinOp) and isinstance(val.op, ast.Mult)) or
+                        (isinstance(val, ast.Call) and call_name(val) in ('sorted', 'tuple')))
+
+        def name_fresh_at(stmt, name, depth=0):
+            """every definition of `name` reaching `stmt` binds a list of its own"""
+            env = {}
+            for nd in cfg.nodes_of(stmt):
+                for k_, v_ in rd.get(nd.id, {}).items():
+                    env.setdefault(k_, set()).update(v_)
+            defs = env.get(name)
+            if not defs:
+                return False
+            for k_ in defs:
+                if k_ == '<param>':
+                    return False
+                d = by_key.get(k_)
+                if not isinstance(d, ast.Assign):
+                    return False
+                val = d.value
+                if is_fresh_value(val):
+                    continue
+                if isinstance(val, ast.Name) and depth < 3 and name_fresh_at(d, val.id, depth + 1):
+                    continue
+                return False
+            return True
         for r in [st for st in ast.walk(f) if isinstance(st, ast.Return) and st.value is not None]:
             v = r.value
             n += 1
-            fresh = not isinstance(v, ast.Name)
-            if isinstance(v, ast.Name) and v.id in pm:
-                def rebound(nd, nm=v.id):
-                    s2 = nd.stmt
-                    if not isinstance(s2, ast.Assign) or unparse(s2.targets[0]) != nm:
-                        return False
-                    val = s2.value
-                    return bool(pmatch('list($$x)', val) or pmatch('$$x[:]', val) or
-                                pmatch('$$x.copy()', val) or isinstance(val, (ast.List,
-                                                                             ast.ListComp)) or
-                                (isinstance(val, ast.BinOp) and isinstance(val.op, ast.Mult)))
-                fresh = cfg.dominators_like_before(r, rebound)
+            fresh = not isinstance(v, ast.Name) or name_fresh_at(r, v.id)
             rep.instance('OWN-list-arg', {'function': qual, 'return': key_text(r), 'fresh': fresh})
             if not fresh:
                 rep.violation('OWN-list-arg', m, qual, 'returns-argument:' + unparse(v),
